@@ -260,6 +260,71 @@ func runC07(c *Ctx) {
 		}
 	}
 
+	// ---- C07.Q: no (nil, nil) from per-request helpers whose callers dereference the result after the error test
+	c.Rule("C07.Q", "per-request module functions returning (pointer|interface, error) never return a possibly-nil value together with a definitely-nil error", 4)
+	if reach != nil {
+		var fs []*ssa.Function
+		for f := range reach {
+			if p.IsModFunc(f) {
+				fs = append(fs, f)
+			}
+		}
+		sort.Slice(fs, func(i, j int) bool { return FuncName(fs[i]) < FuncName(fs[j]) })
+		for _, f := range fs {
+			res := f.Signature.Results()
+			if res.Len() != 2 || res.At(1).Type().String() != "error" {
+				continue
+			}
+			switch res.At(0).Type().Underlying().(type) {
+			case *types.Pointer, *types.Interface:
+			default:
+				continue
+			}
+			bad := ""
+			for _, r := range Returns(f) {
+				v0, v1 := ReturnValue(r, 0), ReturnValue(r, 1)
+				mayNil := false
+				for _, x := range Roots(v0) {
+					if IsNilConst(x) {
+						mayNil = true
+					}
+				}
+				if !mayNil {
+					continue
+				}
+				defNil := true
+				for _, x := range Roots(v1) {
+					if IsNilConst(x) {
+						continue
+					}
+					// a value that was tested against nil with the function continuing only on the nil branch
+					tested := false
+					for _, u := range Refs(x) {
+						if bo, ok := u.(*ssa.BinOp); ok && (IsNilConst(bo.X) || IsNilConst(bo.Y)) {
+							for _, uu := range Refs(bo) {
+								if ifi, ok := uu.(*ssa.If); ok {
+									if _, nonNilSucc, ok := ErrNilTest(ifi); ok {
+										nilBlk := ifi.Block().Succs[1-nonNilSucc]
+										if nilBlk == r.Block() || nilBlk.Dominates(r.Block()) {
+											tested = true
+										}
+									}
+								}
+							}
+						}
+					}
+					if !tested {
+						defNil = false
+					}
+				}
+				if defNil {
+					bad = "the return at " + p.Pos(r.Pos()) + " can yield a nil result with a nil error (error value: " + PathOf(v1) + ")"
+				}
+			}
+			c.Check("C07.Q", FuncName(f), p, f.Pos(), bad == "", "no return pairs a possibly-nil result with a definitely-nil error", FuncName(f)+": "+bad+": its caller tests only the error and then dereferences the result in a worker goroutine without recover — a nil-pointer panic there kills the whole agent")
+		}
+	}
+
 	// ---- C07.O: the dedup LRU stays in the polling goroutine (= C04.O)
 	c.Rule("C07.O", "the (not goroutine-safe) dedup LRU is confined to the polling goroutine (= C04.O)", 1)
 	if f := c.need(p, "C07.O", "agent.pollForNewRequests"); f != nil {
